@@ -525,6 +525,12 @@ pub fn first_divergence(obs: &[El], exp: &[ExpEl], info: &SpecInfo, oracle: &mut
                 if foreign {
                     add(&mut props, "C03");
                 }
+                if after_failure && !already && matches!(o, Some(El::End) | None) {
+                    // the stream stops right after a failure although Init still has something to
+                    // do at this position. Conditional: the driver reports C08 only if the same
+                    // lexer handles the end of the input correctly when no failure precedes it.
+                    add(&mut props, "C08?");
+                }
                 if already {
                     // end of input had been acted upon (by a `$` match or an error that saw it):
                     // every further call must give None
